@@ -14,7 +14,7 @@ BUILDS = {
 }
 
 HOOK_COMMITS = ["9bb871a", "5fa190b"]
-FIX_COMMITS = ["1a9feb3", "a54e157", "e8eadf0", "4275899", "412168a"]
+FIX_COMMITS = ["1a9feb3", "a54e157", "e8eadf0", "4275899", "412168a", "4a034f9", "750341c", "67a090c", "d38134c"]
 
 # properties not claimed, with the reason (filled while the checks are being built)
 NOT_APPLICABLE = {}
@@ -257,6 +257,49 @@ PROPS = {
         "runs": [
             {"engine": "vt", "quick": 12000, "thorough": 800000, "what": "E-A: virtual-clock timer scenarios"},
             {"engine": "rt", "quick": 32, "thorough": 640, "what": "real-clock no-drift smoke (interval catches up after delays; never early)"},
+        ],
+    },
+    "C13": {
+        "level": "exploration",
+        "technique": "runtime monitoring: per-job fate ledger (dispatch result, acceptance-port reply, worker start/end with incarnation, discard-handler calls with reason, worker exits with the job they held) reconciled at quiescence on the virtual clock under worker panics/errors/kills, resizes, settings updates, draining and stop",
+        "level_text": ("Exploration: seeded factory scenarios (10-80 operations) over every router {key-persistent, queuer, sticky, round-robin, "
+                       "custom hash x6} x {default, priority queue} x discard {none, limit 0-3 newest/oldest} x optional leaky bucket, TTLs, "
+                       "dead-man's switch, pools of 0-4; jobs that panic / return Err / die right after reporting; kills of random workers; "
+                       "resizes; settings updates; DrainRequests or stop with backlog. Oracle: no job started twice, none started and "
+                       "discarded, none discarded twice, returned jobs never run and are reported, every accepted job has a fate, at most "
+                       "one job lost per worker exit, nothing lost without a later worker exit, nothing left after shutdown."),
+        "level_note": "'Accepted by the factory' is evidenced by the acceptance port or by a later answered query; a dispatch still in the mailbox of a factory that stopped first is an ordinary unhandled message (C02).",
+        "rule": "non-trivial = >= 5 jobs and (a worker exit or a discard happened); distinct = hash(router, queue, #completed, #discards, #no-fate, #unfinished, #worker exits).",
+        "assumptions": ["the harness worker is a raw actor mirroring the 15-line Worker glue (so that each incarnation is identifiable and can die right after reporting)", "HashMap iteration order inside the factory makes factory scenarios not bit-replayable; the recorded trace is the witness"],
+        "runs": [{"engine": "vt", "quick": 8000, "thorough": 800000, "what": "E-A: factory scenarios on the virtual clock with seeded poll deferral"}],
+    },
+    "C14": {
+        "level": "exploration",
+        "technique": "runtime monitoring: (worker incarnation, key, job) start/end intervals from the virtual-clock trace checked for same-key non-overlap across workers, per-key submission order, in-pool targets under arbitrary custom hashes, round-robin coverage windows, queuer no-idle-while-queued at query barriers, one job at a time per incarnation",
+        "level_text": ("Exploration: the C13 scenario family plus a targeted generator (1-2 keys, long jobs, workers dying right after "
+                       "reporting completion with same-key work queued behind them; the poll interposer decides whether the report or the "
+                       "death reaches the factory first). Held on what was observed, except the recorded finding F2."),
+        "level_note": "Round-robin / in-pool clauses are only evaluated in stable periods (after a barrier whose live worker count equals the requested size, with no resize/kill/exit in between); the queuer idle clause reads active workers before the queue depth so that a non-empty depth also held when activity was read.",
+        "rule": "non-trivial = >= 5 job starts and (a same-key pair on different workers, a round-robin window or a barrier was checked); distinct = hash(router, #starts, #keys, #worker exits, #pairs (capped), #rr windows).",
+        "assumptions": ["the harness worker is a raw actor mirroring the 15-line Worker glue (so that each incarnation is identifiable and can die right after reporting)", "HashMap iteration order inside the factory makes factory scenarios not bit-replayable; the recorded trace is the witness"],
+        "runs": [{"engine": "vt", "quick": 8000, "thorough": 800000, "what": "E-A: general + stale-completion-targeted factory scenarios"}],
+    },
+    "C15": {
+        "level": "exploration",
+        "technique": "runtime monitoring: query barriers (queue depth / active workers / capacity / live children) behind every dispatch, discard-handler and acceptance-port logs for which job is shed, lifecycle-hook log, bounded drain-completion on the virtual clock; the leaky-bucket limiter driven directly on the paused clock against its arithmetic bound",
+        "level_text": ("Exploration: (vt) factory scenarios checked for queue depth <= limit after each processed dispatch, per-worker backlog "
+                       "bound, the shed job being the incoming one (newest) or a previously accepted one in id order (oldest), Loadshed / "
+                       "RateLimited reported once and never run, live workers == last requested non-zero size at quiescence, jobs after "
+                       "DrainRequests refused, accepted jobs not dropped by the drain, the factory stopping by itself within 60 virtual "
+                       "seconds, hooks started -> draining -> stopped. (lb) LeakyBucketRateLimiter with refill/interval/max/initial drawn "
+                       "from {0, 1, small, usize::MAX, Duration::ZERO, 1ns, Duration::MAX}: admitted(0..t) <= start + refill*floor(t/interval), "
+                       "any-window bound, balance <= max, no starvation after two intervals, no panic."),
+        "level_note": "Limit clauses are evaluated only while the limit has not been changed by UpdateSettings and (for the backlog bound) no worker has died; a factory that never had a worker is outside the drain clause.",
+        "rule": "vt: non-trivial = >= 1 barrier and (a shed, a rate-limited job, a drain or a worker exit); lb: every scenario with >= 5 steps; distinct = hash(configuration, observed counts).",
+        "assumptions": ["the harness worker is a raw actor mirroring the 15-line Worker glue (so that each incarnation is identifiable and can die right after reporting)", "HashMap iteration order inside the factory makes factory scenarios not bit-replayable; the recorded trace is the witness"],
+        "runs": [
+            {"engine": "vt", "quick": 8000, "thorough": 800000, "what": "E-A: factory capacity scenarios"},
+            {"engine": "lb", "quick": 8000, "thorough": 2000000, "what": "leaky bucket driven directly under the paused clock"},
         ],
     },
 }
